@@ -4,7 +4,7 @@ use anyhow::{anyhow, Context, Error, Result};
 use lazy_static::lazy_static;
 use regex::Regex;
 pub use schema::*;
-use std::collections::HashMap;
+use std::collections::{HashMap, HashSet};
 use std::fs::File;
 use std::io::ErrorKind;
 use std::path::{Path, PathBuf};
@@ -57,6 +57,18 @@ impl Config {
         }
 
         add_project(root_project_dir.clone(), &mut projects)?;
+
+        let mut project_names = HashSet::new();
+        for project in projects.values() {
+            if let Some(project_name) = &project.name {
+                if !project_names.insert(project_name) {
+                    return Err(anyhow!(
+                        "Project name {} is used by several projects",
+                        project_name
+                    ));
+                }
+            }
+        }
 
         Ok(Self {
             root_project_dir,
